@@ -63,7 +63,7 @@ var c06Callers = map[string][]string{
 }
 
 func c06(c *engine.Ctx) {
-	c.Explain = "Decides who-may-write for the ownership fields of ObjectInfo and who-may-call for their setters and for SetObject/DelObject; the exact refcount comparisons that gate escape/delete/demote/adopt transitions; that an owner has its object id before a child records it and that escaped objects drop their owner; the fixed, unconditional phase order of FinalizeRealmTransaction and the completeness of clearMarks; the hash‖bytes layout written by SetObject and read by loadObjectSafe; one writer per backend key namespace. Not covered: equality of counts with the number of references, reachability, dangling references."
+	c.Explain = "Decides who-may-write for the ownership fields of ObjectInfo and who-may-call for their setters and for SetObject/DelObject (tables closed under private helpers); the exact refcount comparisons that gate escape/delete/demote/adopt transitions (facts at the site, followed through helpers); that an owner has its object id before a child records it and that escaped objects drop their owner; the fixed, unconditional phase order of FinalizeRealmTransaction and the completeness of clearMarks; the hash‖bytes layout written by SetObject and read by loadObjectSafe; one writer per backend key namespace. Not covered: equality of counts with the number of references, reachability, dangling references."
 	p := c.Load(gvaGno)
 	if p == nil {
 		return
@@ -80,8 +80,11 @@ func c06(c *engine.Ctx) {
 		for _, a := range c06FieldWriters[fld] {
 			allowed = append(allowed, c04G+a)
 		}
-		got := engine.WriterSet(ws, nil)
-		extra := engine.SetDiff(got, allowed)
+		var refs []engine.Ref
+		for _, w := range ws {
+			refs = append(refs, engine.Ref{Fn: w.Fn})
+		}
+		extra := p.UnexpectedCallers(refs, allowed)
 		c.Check("who-may-write", "ObjectInfo."+fld, v.Pos(), len(extra) == 0, "written outside its setter by: "+join(extra))
 		c.Floor("who-may-write ObjectInfo."+fld, len(ws), 1)
 	}
@@ -95,32 +98,33 @@ func c06(c *engine.Ctx) {
 			sig := f.Type().(*types.Signature)
 			return sig.Recv() != nil
 		})
-		got := engine.CallerSet(refs)
 		var allowed []string
 		for _, a := range c06Callers[m] {
 			allowed = append(allowed, c04G+a)
 		}
-		extra := engine.SetDiff(got, allowed)
-		c.Check("who-may-call", m, token.NoPos, len(extra) == 0, "called outside the frozen set by: "+join(extra))
+		extra := p.UnexpectedCallers(refs, allowed)
+		c.Check("who-may-call", m, token.NoPos, len(extra) == 0, "called outside the frozen set (not through a private helper of it) by: "+join(extra))
 		c.Floor("who-may-call "+m, len(refs), 1)
 	}
 
-	// (C) refcount gates
+	// (C) refcount gates: role = whose reference count must satisfy the comparison
+	// (-1: the receiver of the target call, i ≥ 0: its i-th argument)
 	type gate struct {
-		fn, target, who string // who: name of the object variable whose refcount is compared
-		op              token.Token
-		k               int64
-		occ             int // which occurrence (0 = all must satisfy)
+		fn, target string
+		role       int
+		nilArg     bool // only calls whose first argument is nil
+		op         token.Token
+		k          int64
 	}
 	gates := []gate{
-		{"(*Realm).DidUpdate", "MarkNewEscaped", "co", token.GTR, 1, 0},
-		{"(*Realm).DidUpdate", "MarkNewDeleted", "xo", token.EQL, 0, 0},
-		{"(*Realm).incRefCreatedDescendants", "MarkNewEscaped", "child", token.GTR, 1, 0},
-		{"(*Realm).incRefCreatedDescendants", "SetOwner", "child", token.EQL, 1, 0},
-		{"(*Realm).processNewCreatedMarks", "incRefCreatedDescendants", "oo", token.NEQ, 0, 0},
-		{"(*Realm).processNewDeletedMarks", "decRefDeletedDescendants", "oo", token.LEQ, 0, 0},
-		{"(*Realm).decRefDeletedDescendants", "decRefDeletedDescendants", "child", token.EQL, 0, 0},
-		{"(*Realm).processNewEscapedMarks", "SetOwner", "eo", token.GTR, 1, 0},
+		{"(*Realm).DidUpdate", "MarkNewEscaped", 0, false, token.GTR, 1},
+		{"(*Realm).DidUpdate", "MarkNewDeleted", 0, false, token.EQL, 0},
+		{"(*Realm).incRefCreatedDescendants", "MarkNewEscaped", 0, false, token.GTR, 1},
+		{"(*Realm).incRefCreatedDescendants", "SetOwner", -1, false, token.EQL, 1},
+		{"(*Realm).processNewCreatedMarks", "incRefCreatedDescendants", 1, false, token.NEQ, 0},
+		{"(*Realm).processNewDeletedMarks", "decRefDeletedDescendants", 1, false, token.LEQ, 0},
+		{"(*Realm).decRefDeletedDescendants", "decRefDeletedDescendants", 1, false, token.EQL, 0},
+		{"(*Realm).processNewEscapedMarks", "SetOwner", -1, true, token.GTR, 1},
 	}
 	for _, gt := range gates {
 		f := c.MustFunc(c04G + gt.fn)
@@ -129,106 +133,110 @@ func c06(c *engine.Ctx) {
 		}
 		short := gt.fn[strings.LastIndexByte(gt.fn, '.')+1:]
 		key := short + " " + gt.target
-		var sites []*engine.Site
-		for _, s := range f.Calls() {
-			if fo, ok := s.Callee.(*types.Func); ok && fo.Name() == gt.target {
-				sites = append(sites, s)
-			}
-		}
-		if len(sites) == 0 {
-			c.Undecided("refcount-gate", key, "no call to "+gt.target)
+		ds := c06DeepCalls(f, gt.target, gt.nilArg)
+		if len(ds) == 0 {
+			c.Undecided("refcount-gate", key, "no call to "+gt.target+" (directly or through helpers)")
 			continue
 		}
-		for _, s := range sites {
-			ok, why := c06RefGate(f, s, gt.who, gt.op, gt.k)
-			c.Check("refcount-gate", key, s.Pos(), ok, why)
+		for _, d := range ds {
+			ok, why := c06DeepRefFact(d, gt.role, gt.op, gt.k)
+			c.Check("refcount-gate", key, d.Inner.Pos(), ok, why)
 		}
 	}
 	// IsEscaped is set only when the object was marked new-escaped
 	if f := c.MustFunc(c04G + "(*Realm).saveObject"); f != nil {
-		g := f.Graph()
-		for _, s := range f.Calls() {
-			if fo, ok := s.Callee.(*types.Func); ok && fo.Name() == "SetIsEscaped" {
-				ok := false
-				for _, gt := range g.Gates(s) {
-					if call, _ := gvaCallee(f.Info(), gt.Cond); call != nil && gt.OnTrue {
-						if sel, isSel := call.Fun.(*ast.SelectorExpr); isSel && sel.Sel.Name == "GetIsNewEscaped" {
-							ok = true
-						}
+		ds := c06DeepCalls(f, "SetIsEscaped", false)
+		if len(ds) == 0 {
+			c.Undecided("refcount-gate", "saveObject SetIsEscaped", "no call to SetIsEscaped")
+		}
+		for _, d := range ds {
+			h := d.Inner.Fn
+			recv := gvaNorm(h, d.Inner.Call.Fun.(*ast.SelectorExpr).X, nil, gvaNormOpt{}, 0).String()
+			ok := false
+			for _, g := range h.Graph().Gates(d.Inner) {
+				for _, atom := range c06Atoms(g) {
+					t := gvaNorm(h, atom, nil, gvaNormOpt{}, 0)
+					pos := g.OnTrue
+					for t.Kind == "unop" && t.Name == "!" {
+						pos = !pos
+						t = t.Args[0]
+					}
+					if pos && t.Kind == "call" && strings.HasSuffix(t.Name, ".GetIsNewEscaped") && len(t.Args) == 1 && t.Args[0].String() == recv {
+						ok = true
 					}
 				}
-				arg := f.Info().Types[s.Call.Args[0]]
-				c.Check("refcount-gate", "saveObject SetIsEscaped", s.Pos(), ok && arg.Value != nil && constant.BoolVal(arg.Value), "IsEscaped must be set to true exactly under GetIsNewEscaped()")
 			}
+			arg := gvaNorm(h, d.Inner.Call.Args[0], nil, gvaNormOpt{}, 0)
+			c.Check("refcount-gate", "saveObject SetIsEscaped", d.Inner.Pos(), ok && arg.Kind == "const" && arg.Name == "true", "IsEscaped must be set to true exactly under GetIsNewEscaped() of the same object")
 		}
 	}
 
 	// (D) owner id assigned before recorded; escaped objects lose their owner
 	if f := c.MustFunc(c04G + "(*Realm).incRefCreatedDescendants"); f != nil {
 		g := f.Graph()
-		assign := f.CallsTo(c04G + "(*Realm).assignNewObjectID")
+		assign := engine.Outers(f.DeepCallsTo(2, c04G+"(*Realm).assignNewObjectID"))
+		var owner types.Object
+		for i := 0; ; i++ {
+			po := paramObj(f, i)
+			if po == nil {
+				break
+			}
+			if engine.TypeName(po.Type()) == gvaGno+".Object" {
+				owner = po
+			}
+		}
 		n := 0
-		ok := len(assign) > 0
-		for _, s := range f.Calls() {
-			if fo, isF := s.Callee.(*types.Func); isF && fo.Name() == "SetOwner" {
-				n++
-				if !g.MustPass(s, assign) {
-					ok = false
-				}
-				if o := gvaRootObj(f.Info(), s.Call.Args[0]); o == nil || o.Name() != "oo" {
+		ok := len(assign) > 0 && owner != nil
+		for _, d := range c06DeepCalls(f, "SetOwner", false) {
+			n++
+			if !g.MustPass(d.Outer, assign) {
+				ok = false
+			}
+			if d.Inner == d.Outer {
+				if o := gvaRootObj(f.Info(), d.Inner.Call.Args[0]); o != owner {
 					ok = false
 				}
 			}
 		}
-		c.Check("owner-id-assigned", "incRefCreatedDescendants", f.Pos(), ok && n >= 2, "child.SetOwner(oo) copies oo's object id into the child: assignNewObjectID(oo) must have run on every path before it")
+		c.Check("owner-id-assigned", "incRefCreatedDescendants", f.Pos(), ok && n >= 1, "child.SetOwner(oo) copies oo's object id into the child: assignNewObjectID(oo) must have run on every path before it")
 	}
 	if f := c.MustFunc(c04G + "(*Realm).processNewEscapedMarks"); f != nil {
-		// an object appended to `escaped` with an owner gets SetOwner(nil)
-		found := false
-		for _, s := range f.Calls() {
-			if fo, isF := s.Callee.(*types.Func); isF && fo.Name() == "SetOwner" && isNil(s.Call.Args[0]) {
-				if o := gvaRootObj(f.Info(), s.Call.Fun.(*ast.SelectorExpr).X); o != nil && o.Name() == "eo" {
-					found = true
-				}
-			}
-		}
-		c.Check("escaped-no-owner", "processNewEscapedMarks", f.Pos(), found, "an object that stays escaped must drop its owner (eo.SetOwner(nil)): owner is recorded exactly for singly referenced, never escaped objects")
+		c.Check("escaped-no-owner", "processNewEscapedMarks", f.Pos(), len(c06DeepCalls(f, "SetOwner", true)) > 0, "an object that stays escaped must drop its owner (SetOwner(nil)): owner is recorded exactly for singly referenced, never escaped objects")
 	}
 
 	// (E) finalize order
 	if f := c.MustFunc(c04G + "(*Realm).FinalizeRealmTransaction"); f != nil {
-		g := f.Graph()
 		phases := []string{"processNewCreatedMarks", "processNewDeletedMarks", "processNewEscapedMarks", "markDirtyAncestors", "saveUnsavedObjects", "removeDeletedObjects", "clearMarks"}
-		var prev *engine.Site
+		prev := ""
 		for _, ph := range phases {
-			ss := f.CallsTo(c04G + "(*Realm)." + ph)
-			if len(ss) != 1 {
-				c.Check("finalize-order", ph, f.Pos(), false, fmt.Sprintf("%d calls, expected exactly one", len(ss)))
-				prev = nil
+			ds := f.DeepCallsTo(2, c04G+"(*Realm)."+ph)
+			// a phase function may call itself or be reached twice through the same outer call; count distinct inner sites
+			if len(ds) != 1 {
+				c.Check("finalize-order", ph, f.Pos(), false, fmt.Sprintf("%d (deep) calls, expected exactly one", len(ds)))
+				prev = ""
 				continue
 			}
-			s := ss[0]
+			d := ds[0]
 			ok, why := true, "runs once, unconditionally, after the previous phase"
-			if gs := g.Gates(s); len(gs) > 0 {
+			if gs := d.DeepGates(); len(gs) > 0 {
 				ok, why = false, "phase is conditional on `"+engine.ExprString(gs[0].Cond)+"`"
 			}
-			if s.Deferred {
+			if d.Outer.Deferred || d.Inner.Deferred {
 				ok, why = false, "phase is deferred"
 			}
-			if prev != nil && !g.Dominates(prev, s) {
-				ok, why = false, "does not run after the preceding phase on every path"
+			if prev != "" {
+				if okb, whyb := c06Before(f, c04G+"(*Realm)."+prev, c04G+"(*Realm)."+ph, 3); !okb {
+					ok, why = false, whyb
+				}
 			}
-			if prev != nil && g.ReachableAfter(s, prev) {
-				ok, why = false, "the preceding phase can run again after it"
-			}
-			// every return is preceded by it
+			g := f.Graph()
 			for _, rb := range g.ReturnBlocks() {
-				if rs := f.SiteOf(rb.Return()); rs != nil && !g.MustPass(rs, ss) {
+				if rs := f.SiteOf(rb.Return()); rs != nil && !g.MustPass(rs, []*engine.Site{d.Outer}) {
 					ok, why = false, "a return path skips the phase"
 				}
 			}
-			c.Check("finalize-order", ph, s.Pos(), ok, why)
-			prev = s
+			c.Check("finalize-order", ph, d.Inner.Pos(), ok, why)
+			prev = ph
 		}
 	}
 	// (F) clearMarks
@@ -241,14 +249,25 @@ func c06(c *engine.Ctx) {
 					continue
 				}
 				n++
-				reset := false
-				for _, w := range p.FieldWrites(fld) {
-					if w.Fn == f && w.Direct {
-						if as, ok := w.Node.(*ast.AssignStmt); ok && len(as.Rhs) == 1 && isNil(as.Rhs[0]) {
-							if st := f.SiteOf(as); st != nil && len(f.Graph().Gates(st)) == 0 {
-								reset = true
+				fld := fld
+				ds := f.DeepFind(2, func(fn *engine.Fn, nd ast.Node) bool {
+					as, ok := nd.(*ast.AssignStmt)
+					if !ok || len(as.Lhs) != len(as.Rhs) {
+						return false
+					}
+					for i, l := range as.Lhs {
+						if se, ok := ast.Unparen(l).(*ast.SelectorExpr); ok {
+							if v, ok := fn.Info().Uses[se.Sel].(*types.Var); ok && v.Origin() == fld.Origin() && isNil(as.Rhs[i]) {
+								return true
 							}
 						}
+					}
+					return false
+				})
+				reset := false
+				for _, d := range ds {
+					if len(d.DeepGates()) == 0 {
+						reset = true
 					}
 				}
 				c.Check("clear-marks", "Realm."+fld.Name(), fld.Pos(), reset, "mark slice is not reset to nil unconditionally in clearMarks: stale marks would leak into the next transaction")
@@ -264,35 +283,156 @@ func c06(c *engine.Ctx) {
 	c06Keys(c, p)
 }
 
-// c06RefGate: the site is reached only when refcount(who) `op` k holds.
-func c06RefGate(f *engine.Fn, s *engine.Site, who string, op token.Token, k int64) (bool, string) {
-	info := f.Info()
+// c06Atoms splits a gate's condition into the atoms that individually hold
+// (true side: conjuncts) or individually fail (false side: disjuncts).
+func c06Atoms(g engine.Gate) []ast.Expr {
+	if g.OnTrue {
+		return engine.Conjuncts(g.Cond, token.LAND)
+	}
+	return engine.Conjuncts(g.Cond, token.LOR)
+}
+
+// c06DeepCalls finds the calls of a method/function with the given bare name
+// reached from f directly or through helpers (depth 2).
+func c06DeepCalls(f *engine.Fn, name string, nilArg bool) []engine.DeepSite {
+	return f.DeepFind(2, func(fn *engine.Fn, nd ast.Node) bool {
+		call, ok := nd.(*ast.CallExpr)
+		if !ok {
+			return false
+		}
+		fo, ok := gvaCalleeFunc(fn.Info(), call)
+		if !ok || fo.Name() != name || fo.Pkg() == nil || engine.Rel(fo.Pkg().Path()) != gvaGno {
+			return false
+		}
+		if nilArg && (len(call.Args) != 1 || !isNil(call.Args[0])) {
+			return false
+		}
+		return true
+	})
+}
+
+// c06Before: phase a completes before phase b starts on every path of f
+// (both reached exactly once; when both sit behind the same helper call, the
+// order is decided inside that helper).
+func c06Before(f *engine.Fn, a, b string, depth int) (bool, string) {
+	da, db := f.DeepCallsTo(depth, a), f.DeepCallsTo(depth, b)
+	if len(da) != 1 || len(db) != 1 {
+		return false, "phase not reached exactly once"
+	}
+	if da[0].Outer == db[0].Outer {
+		if da[0].Inner == da[0].Outer || len(da[0].Chain) == 0 || depth <= 0 {
+			return false, "two phases in one call"
+		}
+		return c06Before(da[0].Chain[0], a, b, depth-1)
+	}
 	g := f.Graph()
-	want := fmt.Sprintf("%s.GetRefCount() %s %d", who, op, k)
+	if !g.Dominates(da[0].Outer, db[0].Outer) {
+		return false, "does not run after the preceding phase on every path"
+	}
+	if g.ReachableAfter(db[0].Outer, da[0].Outer) {
+		return false, "the preceding phase can run again after it"
+	}
+	return true, ""
+}
+
+// c06DeepRefFact: at the (deep) call site the fact refcount(role object) `op` k
+// holds, established by a dominating branch in the function containing the call
+// or in a caller on the chain (the object followed through parameters).
+func c06DeepRefFact(d engine.DeepSite, role int, op token.Token, k int64) (bool, string) {
+	fns := append([]*engine.Fn{d.Outer.Fn}, d.Chain...)
+	sites := make([]*engine.Site, len(fns))
+	sites[len(fns)-1] = d.Inner
+	if len(fns) > 1 {
+		sites[0] = d.Outer
+	}
+	for i := 1; i < len(fns)-1; i++ {
+		for _, s := range fns[i].Calls() {
+			if fo, _ := s.Callee.(*types.Func); fo != nil && fns[i].Prog.FnOf(fo) == fns[i+1] {
+				sites[i] = s
+				break
+			}
+		}
+	}
+	last := len(fns) - 1
+	in := d.Inner
+	var roleExpr ast.Expr
+	if role < 0 {
+		if sel, ok := ast.Unparen(in.Call.Fun).(*ast.SelectorExpr); ok {
+			roleExpr = sel.X
+		}
+	} else if role < len(in.Call.Args) {
+		roleExpr = in.Call.Args[role]
+	}
+	if roleExpr == nil {
+		return false, "cannot identify the object whose reference count matters"
+	}
+	want := fmt.Sprintf("refcount %s %d", op, k)
+	var seen []string
+	for i := last; i >= 0 && roleExpr != nil && sites[i] != nil; i-- {
+		who := gvaNorm(fns[i], roleExpr, nil, gvaNormOpt{}, 0).String()
+		ok, s := c06RefGate(fns[i], sites[i], who, op, k)
+		if ok {
+			return true, "reached only when " + want
+		}
+		seen = append(seen, s...)
+		if i == 0 {
+			break
+		}
+		// follow the object to the caller: it must be a parameter / receiver of fns[i]
+		obj := engine.ObjOf(fns[i].Info(), roleExpr)
+		call := sites[i-1].Call
+		var next ast.Expr
+		for j := 0; obj != nil; j++ {
+			po := paramObj(fns[i], j)
+			if po == nil {
+				break
+			}
+			if po == obj && call != nil && j < len(call.Args) {
+				next = call.Args[j]
+			}
+		}
+		if next == nil && obj != nil && fns[i].Decl != nil && fns[i].Decl.Recv != nil && call != nil {
+			for _, fld := range fns[i].Decl.Recv.List {
+				for _, nm := range fld.Names {
+					if fns[i].Info().ObjectOf(nm) == obj {
+						if sel, ok := ast.Unparen(call.Fun).(*ast.SelectorExpr); ok {
+							next = sel.X
+						}
+					}
+				}
+			}
+		}
+		roleExpr = next
+	}
+	if len(seen) == 0 {
+		return false, "no comparison of the object's reference count gates the call (want " + want + ")"
+	}
+	return false, "gated by refcount " + strings.Join(seen, ", ") + " — not " + want
+}
+
+// c06RefGate: the site is reached only when refcount(obj) `op` k holds.
+func c06RefGate(f *engine.Fn, s *engine.Site, who string, op token.Token, k int64) (bool, []string) {
+	g := f.Graph()
 	var seen []string
 	for _, gt := range g.Gates(s) {
-		conj := token.LAND
-		if !gt.OnTrue {
-			conj = token.LOR
-		}
-		for _, a := range engine.Conjuncts(gt.Cond, conj) {
+		for _, a := range c06Atoms(gt) {
 			b, ok := ast.Unparen(a).(*ast.BinaryExpr)
 			if !ok {
 				continue
 			}
-			x, y, bop := b.X, b.Y, b.Op
-			if !c06IsRefCountOf(f, x, who) {
-				if c06IsRefCountOf(f, y, who) {
-					x, y, bop = y, x, engine.Flip(bop)
+			xt, yt := gvaNorm(f, b.X, nil, gvaNormOpt{}, 0), gvaNorm(f, b.Y, nil, gvaNormOpt{}, 0)
+			bop := b.Op
+			if !c06IsRefCount(xt, who) {
+				if c06IsRefCount(yt, who) {
+					xt, yt, bop = yt, xt, engine.Flip(bop)
 				} else {
 					continue
 				}
 			}
-			tv := info.Types[y]
-			if tv.Value == nil {
+			if yt.Kind != "const" {
 				continue
 			}
-			kv, exact := constant.Int64Val(constant.ToInt(tv.Value))
+			kv, exact := constant.Int64Val(constant.ToInt(constant.MakeFromLiteral(yt.Name, token.INT, 0)))
 			if !exact {
 				continue
 			}
@@ -301,14 +441,16 @@ func c06RefGate(f *engine.Fn, s *engine.Site, who string, op token.Token, k int6
 			}
 			seen = append(seen, fmt.Sprintf("%s %d", bop, kv))
 			if c06Implies(bop, kv, op, k) {
-				return true, "reached only when " + want
+				return true, nil
 			}
 		}
 	}
-	if len(seen) == 0 {
-		return false, "no comparison of " + who + "'s reference count gates the call (want " + want + ")"
-	}
-	return false, "gated by refcount " + strings.Join(seen, ", ") + " — not " + want
+	return false, seen
+}
+
+func c06IsRefCount(t *gvaTerm, who string) bool {
+	t = gvaStripConv(t)
+	return t != nil && t.Kind == "call" && strings.HasSuffix(t.Name, ".GetRefCount") && len(t.Args) == 1 && t.Args[0].String() == who
 }
 
 // c06Implies: (rc bop kv) is the same integer predicate as (rc op k).
@@ -324,42 +466,7 @@ func c06Implies(bop token.Token, kv int64, op token.Token, k int64) bool {
 	}
 	a, av := norm(bop, kv)
 	b, bv := norm(op, k)
-	if a == b && av == bv {
-		return true
-	}
-	// refcounts reaching these gates are never negative after the preceding
-	// increment/decrement guard, but we do not assume it: only exact matches.
-	return false
-}
-
-// c06IsRefCountOf: e is who.GetRefCount() or a local defined from it.
-func c06IsRefCountOf(f *engine.Fn, e ast.Expr, who string) bool {
-	info := f.Info()
-	e = ast.Unparen(e)
-	if call, ok := e.(*ast.CallExpr); ok {
-		sel, ok := call.Fun.(*ast.SelectorExpr)
-		if !ok || sel.Sel.Name != "GetRefCount" {
-			return false
-		}
-		o := gvaRootObj(info, sel.X)
-		return o != nil && o.Name() == who
-	}
-	id, ok := e.(*ast.Ident)
-	if !ok {
-		return false
-	}
-	obj := info.ObjectOf(id)
-	found := false
-	engine.InspectBody(f, func(n ast.Node) {
-		if as, ok := n.(*ast.AssignStmt); ok && len(as.Lhs) == len(as.Rhs) {
-			for i, l := range as.Lhs {
-				if engine.ObjOf(info, l) == obj && c06IsRefCountOf(f, as.Rhs[i], who) {
-					found = true
-				}
-			}
-		}
-	})
-	return found
+	return a == b && av == bv
 }
 
 func c06HashPrefix(c *engine.Ctx, p *engine.Prog) {
@@ -368,85 +475,92 @@ func c06HashPrefix(c *engine.Ctx, p *engine.Prog) {
 		return
 	}
 	info := f.Info()
-	def := func(name string) (types.Object, ast.Expr) {
-		var o types.Object
-		var rhs ast.Expr
-		engine.InspectBody(f, func(n ast.Node) {
-			if as, ok := n.(*ast.AssignStmt); ok && as.Tok == token.DEFINE && len(as.Lhs) == len(as.Rhs) {
-				for i, l := range as.Lhs {
-					if id, ok := l.(*ast.Ident); ok && id.Name == name && o == nil {
-						o, rhs = info.Defs[id], as.Rhs[i]
-					}
-				}
-			}
-		})
-		return o, rhs
+	hashSize := p.Object(gvaGno + ".HashSize")
+	// the value written to the backend
+	var hbO types.Object
+	for _, s := range f.CallsTo(".Set") {
+		if sel, ok := s.Call.Fun.(*ast.SelectorExpr); ok && engine.MentionsName(sel.X, "baseStore") && len(s.Call.Args) == 3 {
+			hbO = engine.ObjOf(info, s.Call.Args[2])
+		}
 	}
-	bzO, bzRhs := def("bz")
-	hashO, hashRhs := def("hash")
-	hbO, hbRhs := def("hashbz")
-	if bzO == nil || hashO == nil || hbO == nil {
-		c.Undecided("hash-prefix", "SetObject", "expected locals bz, hash, hashbz not found")
+	if hbO == nil {
+		c.Undecided("hash-prefix", "SetObject", "baseStore.Set(key, value) with a variable value not found")
 		return
 	}
-	// bz := amino.MustMarshalAny(<copy>)
-	_, cn := gvaCallee(info, bzRhs)
-	c.Check("hash-prefix", "SetObject bz", bzRhs.Pos(), strings.HasPrefix(cn, "tm2/pkg/amino.MustMarshal"), "bz must be the amino encoding of the object copy")
-	// bz is never reassigned or sliced-into
-	reassigned := false
-	engine.InspectBody(f, func(n ast.Node) {
-		if as, ok := n.(*ast.AssignStmt); ok && as.Tok != token.DEFINE {
-			for _, l := range as.Lhs {
-				if gvaRootObj(info, l) == bzO || gvaRootObj(info, l) == hashO {
-					reassigned = true
-				}
-			}
+	c.Check("hash-prefix", "SetObject stores", f.Pos(), true, "baseStore.Set stores "+hbO.Name())
+	isHashSize := func(e ast.Expr, hashO types.Object) bool {
+		if e == nil {
+			return false
 		}
-	})
-	c.Check("hash-prefix", "SetObject single-assignment", f.Pos(), !reassigned, "bz / hash are modified after being computed")
-	// hash := HashBytes(bz)
-	call, cn := gvaCallee(info, hashRhs)
-	okH := cn == c04G+"HashBytes" && len(call.Args) == 1 && engine.ObjOf(info, call.Args[0]) == bzO
-	c.Check("hash-prefix", "SetObject hash", hashRhs.Pos(), okH, "hash must be HashBytes(bz) of exactly the stored bytes")
-	// hashbz := make([]byte, len(hash)+len(bz)); copy(hashbz, hash.Bytes()); copy(hashbz[HashSize:], bz)
-	okMake := false
-	if mk, mn := gvaCallee(info, hbRhs); mn == "builtin.make" && len(mk.Args) == 2 {
-		if b, ok := ast.Unparen(mk.Args[1]).(*ast.BinaryExpr); ok && b.Op == token.ADD {
-			l1 := engine.IsLenOf(info, b.X, hashO) && engine.IsLenOf(info, b.Y, bzO)
-			l2 := engine.IsLenOf(info, b.X, bzO) && engine.IsLenOf(info, b.Y, hashO)
-			okMake = l1 || l2
+		if hashSize != nil && engine.ObjOf(info, e) == hashSize {
+			return true
 		}
+		return hashO != nil && engine.IsLenOf(info, e, hashO)
 	}
-	hashSize := p.Object(gvaGno + ".HashSize")
+	// the two copies that fill it: prefix (hash) and body (bytes)
+	var hashO, bzO types.Object
 	prefixCopy, bodyCopy := false, false
 	for _, s := range f.CallsTo("builtin.copy") {
 		dst, src := ast.Unparen(s.Call.Args[0]), ast.Unparen(s.Call.Args[1])
+		if gvaRootObj(info, dst) != hbO {
+			continue
+		}
+		srcObj := engine.ObjOf(info, src)
+		if bc, bn := gvaCallee(info, src); bc != nil && strings.HasSuffix(bn, ".Bytes") {
+			srcObj = gvaRootObj(info, bc.Fun.(*ast.SelectorExpr).X)
+		}
 		switch d := dst.(type) {
 		case *ast.Ident:
-			if info.ObjectOf(d) == hbO {
-				if bc, bn := gvaCallee(info, src); bc != nil && strings.HasSuffix(bn, ".Bytes") && gvaRootObj(info, bc.Fun.(*ast.SelectorExpr).X) == hashO {
-					prefixCopy = true
-				}
-			}
+			hashO, prefixCopy = srcObj, srcObj != nil
 		case *ast.SliceExpr:
-			if gvaRootObj(info, d.X) == hbO && d.High == nil && d.Low != nil && engine.ObjOf(info, d.Low) == hashSize && hashSize != nil && engine.ObjOf(info, src) == bzO {
+			if d.Low == nil {
+				hashO, prefixCopy = srcObj, srcObj != nil
+			} else if d.High == nil {
+				bzO = srcObj
 				bodyCopy = true
 			}
 		}
 	}
-	c.Check("hash-prefix", "SetObject layout", f.Pos(), okMake && prefixCopy && bodyCopy, fmt.Sprintf("stored value must be hash ‖ bz: make(len(hash)+len(bz))=%v, copy(hashbz, hash.Bytes())=%v, copy(hashbz[HashSize:], bz)=%v", okMake, prefixCopy, bodyCopy))
-	// the Set stores hashbz under backendObjectKey(oid); oo.SetHash(ValueHash{hash})
-	stored := false
-	for _, s := range f.CallsTo(".Set") {
-		if sel, ok := s.Call.Fun.(*ast.SelectorExpr); ok && engine.MentionsName(sel.X, "baseStore") && len(s.Call.Args) == 3 && engine.ObjOf(info, s.Call.Args[2]) == hbO {
-			stored = true
+	// re-check the body offset once the hash variable is known
+	if bodyCopy {
+		bodyCopy = false
+		for _, s := range f.CallsTo("builtin.copy") {
+			if d, ok := ast.Unparen(s.Call.Args[0]).(*ast.SliceExpr); ok && gvaRootObj(info, d.X) == hbO && d.High == nil && isHashSize(d.Low, hashO) {
+				bodyCopy = true
+			}
 		}
 	}
-	c.Check("hash-prefix", "SetObject stores", f.Pos(), stored, "baseStore.Set must store hashbz")
+	okMake := false
+	if def := gvaSingleDef(f, hbO, false); def != nil {
+		if mk, mn := gvaCallee(info, def); mn == "builtin.make" && len(mk.Args) == 2 {
+			if b, ok := ast.Unparen(mk.Args[1]).(*ast.BinaryExpr); ok && b.Op == token.ADD {
+				isH := func(e ast.Expr) bool { return isHashSize(e, hashO) }
+				isB := func(e ast.Expr) bool { return bzO != nil && engine.IsLenOf(info, e, bzO) }
+				okMake = (isH(b.X) && isB(b.Y)) || (isB(b.X) && isH(b.Y))
+			}
+		}
+	}
+	c.Check("hash-prefix", "SetObject layout", f.Pos(), okMake && prefixCopy && bodyCopy && hashO != nil && bzO != nil, fmt.Sprintf("stored value must be hash ‖ bytes: make(len(hash)+len(bytes))=%v, copy(v, hash)=%v, copy(v[HashSize:], bytes)=%v", okMake, prefixCopy, bodyCopy))
+	if hashO == nil || bzO == nil {
+		return
+	}
+	// bytes := amino.MustMarshalAny(<copy>), hash := HashBytes(bytes), both single-assignment
+	bzDef, hashDef := gvaSingleDef(f, bzO, false), gvaSingleDef(f, hashO, false)
+	c.Check("hash-prefix", "SetObject single-assignment", f.Pos(), bzDef != nil && hashDef != nil, "the stored bytes / their hash are modified after being computed")
+	if bzDef == nil || hashDef == nil {
+		return
+	}
+	_, cn := gvaCallee(info, bzDef)
+	c.Check("hash-prefix", "SetObject bz", bzDef.Pos(), strings.HasPrefix(cn, "tm2/pkg/amino.MustMarshal"), "the stored bytes must be the amino encoding of the object copy")
+	call, cn := gvaCallee(info, hashDef)
+	okH := cn == c04G+"HashBytes" && len(call.Args) == 1 && engine.ObjOf(info, call.Args[0]) == bzO
+	c.Check("hash-prefix", "SetObject hash", hashDef.Pos(), okH, "hash must be HashBytes(bytes) of exactly the stored bytes")
+	// the object records that hash
 	sethash := false
+	oo := paramObj(f, 0)
 	for _, s := range f.Calls() {
-		if fo, ok := s.Callee.(*types.Func); ok && fo.Name() == "SetHash" && gvaRootObj(info, s.Call.Fun.(*ast.SelectorExpr).X) != nil && gvaRootObj(info, s.Call.Fun.(*ast.SelectorExpr).X).Name() == "oo" {
-			if cl, ok := ast.Unparen(s.Call.Args[0]).(*ast.CompositeLit); ok && len(cl.Elts) == 1 && engine.ObjOf(info, cl.Elts[0]) == hashO {
+		if fo, ok := s.Callee.(*types.Func); ok && fo.Name() == "SetHash" && gvaRootObj(info, s.Call.Fun.(*ast.SelectorExpr).X) == oo && oo != nil {
+			if strings.Contains(gvaNorm(f, s.Call.Args[0], nil, gvaNormOpt{}, 0).String(), gvaNorm(f, hashDef, nil, gvaNormOpt{}, 0).String()) {
 				sethash = true
 			}
 		}
@@ -454,46 +568,72 @@ func c06HashPrefix(c *engine.Ctx, p *engine.Prog) {
 	c.Check("hash-prefix", "SetObject records", f.Pos(), sethash, "the object must record exactly the hash that prefixes its stored bytes (oo.SetHash(ValueHash{hash}))")
 	// iavl entry for escaped objects carries the same hash
 	iavl := false
+	hs := gvaNorm(f, hashDef, nil, gvaNormOpt{}, 0).String()
 	for _, s := range f.CallsTo(".Set") {
 		if sel, ok := s.Call.Fun.(*ast.SelectorExpr); ok && engine.MentionsName(sel.X, "iavlStore") && len(s.Call.Args) == 3 {
-			if v := engine.ObjOf(info, s.Call.Args[2]); v != nil {
+			v := s.Call.Args[2]
+			if o := engine.ObjOf(info, v); o != nil {
+				// `var key, value []byte; value = hash.Bytes()`: follow the plain assignment
 				engine.InspectBody(f, func(n ast.Node) {
-					if as, ok := n.(*ast.AssignStmt); ok && len(as.Lhs) == 1 && len(as.Rhs) == 1 && engine.ObjOf(info, as.Lhs[0]) == v {
-						if bc, bn := gvaCallee(info, as.Rhs[0]); bc != nil && strings.HasSuffix(bn, ".Bytes") && gvaRootObj(info, bc.Fun.(*ast.SelectorExpr).X) == hashO {
-							iavl = true
+					if as, ok := n.(*ast.AssignStmt); ok && len(as.Lhs) == len(as.Rhs) {
+						for i, l := range as.Lhs {
+							if engine.ObjOf(info, l) == o && strings.Contains(gvaNorm(f, as.Rhs[i], nil, gvaNormOpt{}, 0).String(), hs) {
+								iavl = true
+							}
 						}
 					}
 				})
+			}
+			if strings.Contains(gvaNorm(f, v, nil, gvaNormOpt{}, 0).String(), hs) {
+				iavl = true
 			}
 		}
 	}
 	c.Check("hash-prefix", "SetObject iavl", f.Pos(), iavl, "the escaped-object index must store the same hash")
 
-	// reader side
+	// reader side: the loaded value is split at HashSize and the tail is what gets decoded
 	if lf := c.MustFunc(c04G + "(*defaultStore).loadObjectSafe"); lf != nil {
 		li := lf.Info()
-		var hashOK, bzOK bool
+		var heads, tails []types.Object
 		engine.InspectBody(lf, func(n ast.Node) {
-			as, ok := n.(*ast.AssignStmt)
-			if !ok || len(as.Lhs) != 1 || len(as.Rhs) != 1 {
-				return
-			}
-			se, ok := ast.Unparen(as.Rhs[0]).(*ast.SliceExpr)
+			se, ok := n.(*ast.SliceExpr)
 			if !ok {
 				return
 			}
-			id, _ := as.Lhs[0].(*ast.Ident)
-			if id == nil {
-				return
+			isHS := func(e ast.Expr) bool { return e != nil && hashSize != nil && engine.ObjOf(li, e) == hashSize }
+			if se.Low == nil && isHS(se.High) {
+				heads = append(heads, gvaRootObj(li, se.X))
 			}
-			if id.Name == "hash" && se.Low == nil && se.High != nil && engine.ObjOf(li, se.High) == hashSize {
-				hashOK = true
-			}
-			if id.Name == "bz" && se.High == nil && se.Low != nil && engine.ObjOf(li, se.Low) == hashSize {
-				bzOK = true
+			if se.High == nil && isHS(se.Low) {
+				tails = append(tails, gvaRootObj(li, se.X))
 			}
 		})
-		c.Check("hash-prefix", "loadObjectSafe split", lf.Pos(), hashOK && bzOK && hashSize != nil, "the reader must split the stored value at HashSize (hash = v[:HashSize], bz = v[HashSize:])")
+		split := false
+		for _, h := range heads {
+			for _, t := range tails {
+				if h != nil && h == t {
+					split = true
+				}
+			}
+		}
+		decodesTail := false
+		for _, s := range lf.CallsTo("tm2/pkg/amino.MustUnmarshal", "tm2/pkg/amino.MustUnmarshalAny") {
+			t := gvaNorm(lf, s.Call.Args[0], nil, gvaNormOpt{}, 0)
+			if t.Kind == "unknown" || t.Kind == "obj" {
+				// slice expressions are not modelled by terms: resolve the local by hand
+				if o := engine.ObjOf(li, s.Call.Args[0]); o != nil {
+					if def := gvaSingleDef(lf, o, false); def != nil {
+						if se, ok := ast.Unparen(def).(*ast.SliceExpr); ok && se.High == nil && se.Low != nil && hashSize != nil && engine.ObjOf(li, se.Low) == hashSize {
+							decodesTail = true
+						}
+					}
+				}
+			}
+			if se, ok := ast.Unparen(s.Call.Args[0]).(*ast.SliceExpr); ok && se.High == nil && se.Low != nil && engine.ObjOf(li, se.Low) == hashSize {
+				decodesTail = true
+			}
+		}
+		c.Check("hash-prefix", "loadObjectSafe split", lf.Pos(), split && decodesTail, "the reader must split the stored value at HashSize (hash = v[:HashSize]) and decode v[HashSize:]")
 	}
 }
 
@@ -505,38 +645,28 @@ var c06KeyWriters = map[string][]string{
 }
 
 func c06Keys(c *engine.Ctx, p *engine.Prog) {
-	// every function that writes to baseStore and mentions a key builder
-	writers := map[string]map[string]bool{}
-	n := 0
-	for _, f := range p.FuncsIn(gvaGno) {
-		writes := false
-		for _, s := range f.CallsTo(".Set", ".Delete") {
-			if sel, ok := s.Call.Fun.(*ast.SelectorExpr); ok && engine.MentionsName(sel.X, "baseStore") {
-				writes = true
+	writesBackend := func(f *engine.Fn) bool {
+		return len(f.Root().DeepFind(2, func(fn *engine.Fn, nd ast.Node) bool {
+			call, ok := nd.(*ast.CallExpr)
+			if !ok {
+				return false
 			}
-		}
-		if !writes {
-			continue
-		}
-		n++
-		for _, s := range f.Calls() {
-			if fo, ok := s.Callee.(*types.Func); ok && strings.HasPrefix(fo.Name(), "backend") && strings.HasSuffix(fo.Name(), "Key") {
-				if writers[fo.Name()] == nil {
-					writers[fo.Name()] = map[string]bool{}
-				}
-				writers[fo.Name()][f.Root().Name] = true
-			}
-		}
+			sel, ok := call.Fun.(*ast.SelectorExpr)
+			return ok && (sel.Sel.Name == "Set" || sel.Sel.Name == "Delete") && engine.MentionsName(sel.X, "baseStore")
+		})) > 0
 	}
-	c.Floor("key-namespace writers", n, 6)
 	for _, b := range engine.SortedKeys(c06KeyWriters) {
 		var allowed []string
 		for _, a := range c06KeyWriters[b] {
 			allowed = append(allowed, c04G+a)
 		}
-		got := gvaSorted(writers[b])
-		extra := engine.SetDiff(got, allowed)
-		missing := engine.SetDiff(allowed, got)
-		c.Check("key-namespace", b, token.NoPos, len(extra) == 0 && len(missing) == 0, "writers under this key: "+join(got)+"; unexpected: "+join(extra)+"; missing: "+join(missing))
+		var writers []engine.Ref
+		for _, r := range p.RefsToFunc(c04G + b) {
+			if r.Fn != nil && writesBackend(r.Fn) {
+				writers = append(writers, r)
+			}
+		}
+		extra := p.UnexpectedCallers(writers, allowed)
+		c.Check("key-namespace", b, token.NoPos, len(extra) == 0 && len(writers) > 0, fmt.Sprintf("%d writing users of this key builder; unexpected: %s", len(writers), join(extra)))
 	}
 }
